@@ -31,8 +31,39 @@ def _ref_func(model: Model, src: str, like: FuncInfo) -> FuncInfo:
     return FuncInfo(node.name, like.qname + "<reference>", node, like.module, like.cls)
 
 
+def _cond_ast(c) -> ast.AST:
+    parts = [e if pol else ast.UnaryOp(op=ast.Not(), operand=e) for e, pol in c]
+    if not parts:
+        return ast.Constant(value=True)
+    return parts[0] if len(parts) == 1 else ast.BoolOp(op=ast.And(), values=parts)
+
+
+def merged_result(fl: Flow) -> list[ast.AST]:
+    """All returns folded into one conditional expression (per tuple element when every return is a
+    tuple of the same arity): `if c: return a` / `return b`  ==  `return a if c else b`."""
+    rets = [r for r in fl.returns]
+    if not rets:
+        return []
+    vals = [r.value if r.value is not None else ast.Constant(value=None) for r in rets]
+    arity = {len(v.elts) if isinstance(v, ast.Tuple) else -1 for v in vals}
+    if len(arity) == 1 and -1 not in arity:
+        cols = [[v.elts[i] for v in vals] for i in range(arity.pop())]  # type: ignore[attr-defined]
+    else:
+        cols = [vals]
+    out = []
+    for col in cols:
+        e: ast.AST = col[-1]
+        for r, v in zip(reversed(rets[:-1]), reversed(col[:-1])):
+            e = ast.IfExp(test=_cond_ast(r.cond), body=v, orelse=e)
+        out.append(e)
+    return out
+
+
 def table(fl: Flow, keep: Optional[Callable[[str, str], bool]] = None):
-    rets = sorted({(fl.canon_cond(r.cond), fl.canon(r.value)) for r in fl.returns})
+    # the returns partition the paths, so the nesting order of the merged conditional does not matter
+    # once it is printed as a decision table
+    total = fl.cprinter.show_cond(()) if not fl.returns else None
+    rets = [fl.canon(e) for e in merged_result(fl)]
     effs = []
     for e in fl.effects:
         s = fl.canon(e.expr)
@@ -60,11 +91,9 @@ def compare(rule: Rule, model: Model, f: FuncInfo, ref_src: str, key: str, *,
         ok_all &= ok
         msg = ""
         if not ok:
-            extra = [x for x in got_r if x not in ref_r]
-            missing = [x for x in ref_r if x not in got_r]
-            msg = f"{key}: {what + ': ' if what else ''}what is returned differs from the reference -- " + \
-                "; ".join([f"returns `{_clip(v)}` when `{_clip(c)}`" for c, v in extra[:2]] +
-                          [f"should return `{_clip(v)}` when `{_clip(c)}`" for c, v in missing[:2]])
+            msg = f"{key}: {what + ': ' if what else ''}what is returned differs from the reference -- returns " + \
+                ", ".join(f"`{_clip(fl.show(e))}`" for e in merged_result(fl)) + "; the reference returns " + \
+                ", ".join(f"`{_clip(rf.show(e))}`" for e in merged_result(rf))
         rule.check(ok, f"{key}|returns", f.loc(), msg)
     gm = Counter((k, s, c) for k, s, c, _ in got_e)
     rm = Counter((k, s, c) for k, s, c, _ in ref_e)
